@@ -286,6 +286,81 @@ def rule_nonempty(prog, rep):
                         "a path from the opening delimiter to the closing one parses no item and reports no error: an empty %s would be accepted although the grammar requires at least one element" % name.split("::")[-1], fn.loc())
 
 
+def _zero_iteration_paths(fn):
+    """Walk fn's CFG from the entry assuming every callback-driven list loop (peek_while*,
+    parse_separated_list) runs ZERO times: boolean flags keep the constants assigned in fn itself
+    (a `&mut` capture by the callback does not forget them, since the callback never runs), and a
+    switch on a known flag follows one edge.  Yields (blocks on the path) for every path to a
+    return."""
+    out = []
+    succs = fn.succs()
+
+    def rec(b, env, path, onpath):
+        if len(out) > 4000:
+            raise Undecided("too many paths in %s" % fn.name)
+        env = dict(env)
+        for st in fn.stmts(b):
+            if st[0] != "=" or st[1][1]:
+                continue
+            l, rv = st[1][0], st[2]
+            if rv[0] == "use":
+                c = op_const(rv[1])
+                if c is not None and c[0] == "bool":
+                    env[l] = (c[2].get("int") == "1") if "int" in c[2] else (c[1] == "true")
+                    continue
+                sl = op_local(rv[1])
+                if sl is not None and sl in env:
+                    env[l] = env[sl]
+                    continue
+            elif rv[0] == "un" and rv[1] == "Not":
+                sl = op_local(rv[2])
+                if sl is not None and sl in env:
+                    env[l] = not env[sl]
+                    continue
+            elif rv[0] in ("ref", "agg"):
+                continue  # borrowing / capturing a flag does not change it
+            env.pop(l, None)
+        t = fn.term(b)
+        if t[0] == "ret":
+            out.append(path + [b])
+            return
+        if t[0] == "call" and not t[3][1]:
+            env.pop(t[3][0], None)
+        nxt = list(dict.fromkeys(succs[b]))
+        if t[0] == "switch":
+            info = fn.switch_info(b)
+            if info and info.get("kind") == "bool" and info["local"] in env:
+                nxt = [info["edges"][env[info["local"]]]]
+        for s2 in nxt:
+            if s2 in onpath:
+                continue
+            rec(s2, env, path + [b], onpath | {b})
+
+    rec(0, {}, [], frozenset())
+    return out
+
+
+def rule_schema_extension(prog, rep):
+    """C05.NONEMPTY for SchemaExtension: `extend schema Directives? { RootOperationTypeDefinition+ }`
+    or `extend schema Directives`.  The braces are optional, but once `{` is consumed at least one
+    root operation type definition is required, whether or not directives came before.  Decided by
+    walking the function with the list callback run zero times: every such path that consumes `{`
+    must report an error."""
+    fn = prog.fn(r"^apollo_parser::parser::grammar::schema::schema_extension$")
+    calls = fn.live_calls()
+    opens = [c.block for c in calls if re.search(r"Parser::<'input>::bump$", c.name) and "L_CURLY" in fn.sym(c.args[1])]
+    errs = set(c.block for c in calls if re.search(r"Parser::<'input>::(err|err_and_pop)$", c.name))
+    items = set(c.block for c in calls if re.search(r"grammar::schema::root_operation_type_definition$", c.name))
+    if not opens:
+        raise AnchorError("schema_extension: `{` bump not found")
+    bad = [p for p in _zero_iteration_paths(fn) if set(p) & set(opens) and not (set(p) & errs) and not (set(p) & items)]
+    if not bad:
+        rep.instance("C05.NONEMPTY", "schema_extension: once `{` is consumed, an empty root operation list is reported on every path (with or without directives)")
+    else:
+        rep.finding("C05.NONEMPTY", fn.name, "empty-list",
+                    "a path consumes `{` and `}` with no root operation type definition and reports no error (the `requirement met` flag was already set by the directives): `extend schema @d { }` is accepted although the grammar requires at least one RootOperationTypeDefinition inside the braces", fn.loc())
+
+
 def _flag_idiom(prog, fn):
     """bool local set to true inside a peek_while* callback that also parses an item, tested
     after the loop with an error on its false edge"""
@@ -444,6 +519,7 @@ def run(prog, rep):
     rule_dispatch(prog, rep)
     rule_locations(prog, rep)
     rule_nonempty(prog, rep)
+    rule_schema_extension(prog, rep)
     rule_const(prog, rep)
     rule_reserved(prog, rep)
     from . import parser_produce
